@@ -49,7 +49,12 @@ func (g *docGen) scalar() any {
 		}
 		return g.str("val")
 	}
-	switch g.pick(8) {
+	switch g.pick(9) {
+	case 8:
+		if g.plain || g.plainNums {
+			return g.pick(100)
+		}
+		return uint64(18446744073709551000) + uint64(g.pick(600)) // beyond MaxInt64: yaml.v3 reads it as a uint64
 	case 0:
 		return g.pick(100) - 20
 	case 1:
@@ -470,6 +475,10 @@ func (g *docGen) pipeline() any {
 	}
 	p = append(p, [2]any{"steps", steps})
 	p = g.extras(p, g.mapSize(g.pick(3)))
+	if g.pick(5) == 0 {
+		// the very LAST thing the marshalled pipeline says is a string that ends in line feeds: they are part of the string
+		p = append(p, [2]any{"zzzz_last", []string{"tail line\nend\n\n", "x\n\n\n", "one\n"}[g.pick(3)]})
+	}
 	g.rng.Shuffle(len(p), func(i, j int) { p[i], p[j] = p[j], p[i] })
 	return orderedJSON(p)
 }
@@ -503,6 +512,8 @@ func avFromDoc(d any) any {
 		return obj{"t": "b", "v": x}
 	case int:
 		return obj{"t": "n", "v": strconv.Itoa(x)}
+	case uint64:
+		return obj{"t": "n", "v": strconv.FormatUint(x, 10)}
 	case float64:
 		return obj{"t": "n", "v": canonNum(x)}
 	}
@@ -610,6 +621,9 @@ func docFromAV(a any) any {
 		s := m["v"].(string)
 		if i, err := strconv.Atoi(s); err == nil {
 			return i
+		}
+		if u, err := strconv.ParseUint(s, 10, 64); err == nil {
+			return u // (an integer beyond MaxInt64)
 		}
 		f, _ := strconv.ParseFloat(s, 64)
 		return f
